@@ -38,7 +38,7 @@ ANCHORS = [
     "acnportal.acnsim.models.evse:BaseEVSE._from_dict",
     "acnportal.acnsim.base:BaseSimObj._build_from_id",
 ]
-REQUIRED = ["points:resume", "points:json", "mode:before", "mode:after", "interrupted_in_final_period", "interrupted_in_first_period",
+REQUIRED = ["json_via:path", "json_via:pathlib", "json_via:handle", "points:resume", "points:json", "mode:before", "mode:after", "interrupted_in_final_period", "interrupted_in_first_period",
             "identity_checks", "canonical_dumps_compared", "queue_orders_compared", "pending:Plugin", "pending:Unplug", "pending:Recompute",
             "evse:EVSE", "evse:DB", "evse:FR", "battery:ideal", "battery:l2", "battery:noise", "hist:on", "hist:off", "sched:scripted",
             "sched:uncontrolled", "sched:sorted", "tz:aware", "tz:naive"]
@@ -314,7 +314,29 @@ def judge_point(d, R, T, pt, leg, mode, obs, wit):
     remaining = len(pt) - 1
     if leg == "json":
         js = sim.to_json()
-        s2 = Simulator.from_json(js)
+        # the dump also travels through a file: by path (str / pathlib.Path) or through open handles
+        via = ["string", "string", "path", "pathlib", "handle"][(k + len(pend) + len(connected)) % 5]
+        obs.ev("json_via:" + via)
+        if via == "string":
+            s2 = Simulator.from_json(js)
+        else:
+            import os, tempfile, pathlib
+            from vlib import env as _env
+            os.makedirs(os.path.join(_env.VERIF, ".work"), exist_ok=True)
+            fd, path = tempfile.mkstemp(prefix="c09_", suffix=".json", dir=os.path.join(_env.VERIF, ".work"))
+            os.close(fd)
+            try:
+                if via == "handle":
+                    with open(path, "w") as fh:
+                        sim.to_json(fh)
+                    with open(path) as fh:
+                        s2 = Simulator.from_json(fh)
+                else:
+                    target = pathlib.Path(path) if via == "pathlib" else path
+                    sim.to_json(target)
+                    s2 = Simulator.from_json(target)
+            finally:
+                os.remove(path)
         # ---- complete state: canonicalised dump of the loaded object equals that of the original
         c1, c2 = canon(js), canon(s2.to_json())
         obs.ev("canonical_dumps_compared")
